@@ -282,6 +282,9 @@ func PolygonProtoToS2Polygon(polygon *pb.PolygonProto) *s2.Polygon {
 	for _, loop := range polygon.Loops {
 		s2loop := LoopProtoToS2Loop(loop)
 		if s2loop != nil {
+			// NewPolygonProto writes holes clockwise, but s2 expects every
+			// loop of a nested polygon to be counterclockwise.
+			s2loop.Normalize()
 			s2loops = append(s2loops, s2loop)
 		}
 	}
